@@ -2,6 +2,8 @@ package props
 
 import (
 	"fmt"
+	sdkvesting "github.com/cosmos/cosmos-sdk/x/auth/vesting/types"
+	vestingtypes "github.com/haqq-network/haqq/x/vesting/types"
 	"math/big"
 	"math/rand"
 	"strings"
@@ -38,9 +40,24 @@ type c03Env struct {
 	lastEthNonces map[int]string
 	lastCos       map[string][]byte
 	lastCosSeq    map[string]uint64
+	// the checks' own record of the sequence numbers under which each key's transactions have been executed
+	// (Ethereum nonces and Cosmos sequences are the same counter): none may ever be used twice
+	used map[int]map[uint64]bool
 }
 
-var c03State = &c03Env{lastEth: map[int][]byte{}, lastEthNonces: map[int]string{}, lastCos: map[string][]byte{}, lastCosSeq: map[string]uint64{}}
+var c03State = &c03Env{lastEth: map[int][]byte{}, lastEthNonces: map[int]string{}, lastCos: map[string][]byte{}, lastCosSeq: map[string]uint64{}, used: map[int]map[uint64]bool{}}
+
+// c03Use records that key k executed a transaction under the sequence number n; false if n was used before.
+func c03Use(k int, n uint64) bool {
+	if c03State.used[k] == nil {
+		c03State.used[k] = map[uint64]bool{}
+	}
+	if c03State.used[k][n] {
+		return false
+	}
+	c03State.used[k][n] = true
+	return true
+}
 
 func c03Gen(r *rand.Rand, tier string) []Case {
 	n := 16
@@ -57,6 +74,11 @@ func c03Gen(r *rand.Rand, tier string) []Case {
 		c = append(c, fmt.Sprintf("%s ? ? ? ? # k=1 signseq=0 chain=other mutate=none", route), fmt.Sprintf("%s ? ? ? ? # k=1 signseq=0 chain=ok mutate=none", route))
 		out = append(out, c)
 	}
+	// fixed case: transactions, a replay (refused), the account converted into a vesting account by someone else, the
+	// same replays again
+	out = append(out, Case{"eth ? ? # k=2 offs=0 type=legacy", "cos ? ? ? ? # k=2 signseq=0 chain=ok mutate=none", "eth ? ? # k=2 offs=0,1 type=dynamic",
+		"eth ? ? # k=2 replay=1", "cos ? ? ? ? # k=2 replay=1", "vconv # k=2", "eth ? ? # k=2 replay=1", "cos ? ? ? ? # k=2 replay=1",
+		"eth ? ? # k=2 offs=0 type=access", "eth ? ? # k=2 replay=1"})
 	for i := 0; i < n; i++ {
 		var c Case
 		for j := 0; j < 6+r.Intn(10); j++ {
@@ -192,6 +214,11 @@ func c03Exec(c Case) (outs []string, fails []Failure, tags []string) {
 				if res.Code == 0 {
 					out = fmt.Sprintf("accept %d", now)
 					tags = append(tags, "eth-accept")
+					for _, ns := range strings.Split(f[2], ",") {
+						if n := mustBig(ns).Uint64(); !c03Use(k, n) {
+							fl("C03:sequence-number-executed-twice", fmt.Sprintf("key %d: an Ethereum message with nonce %d was executed although a transaction of this key had already been executed under that number", k, n))
+						}
+					}
 					// the property's own predicate: every executed message carried the account's sequence at its turn
 					for j, ns := range strings.Split(f[2], ",") {
 						if ns != fmt.Sprint(seq+uint64(j)) {
@@ -308,6 +335,9 @@ func c03Exec(c Case) (outs []string, fails []Failure, tags []string) {
 				if res.Code == 0 {
 					out = fmt.Sprintf("accept %d", now)
 					tags = append(tags, route+"-accept")
+					if !c03Use(k, txSeq) {
+						fl("C03:sequence-number-executed-twice", fmt.Sprintf("key %d: a Cosmos transaction signed for sequence %d was executed although a transaction of this key had already been executed under that number", k, txSeq))
+					}
 					if kv["replay"] != "1" {
 						id := fmt.Sprintf("%s/%d", route, k)
 						c03State.lastCos[id], c03State.lastCosSeq[id] = bz, txSeq
@@ -321,6 +351,20 @@ func c03Exec(c Case) (outs []string, fails []Failure, tags []string) {
 					if !balOf(k).Equal(b0) || now != seq {
 						fl("C03:rejected-tx-changed-account:"+route, "a rejected transaction changed the signer's sequence or balance: "+line)
 					}
+				}
+			case "vconv":
+				// someone else turns the key's account into a vesting account (a small grant); nothing about what the key
+				// has signed before may become valid again
+				out = "skip"
+				start := nw.GetContext().BlockTime()
+				msg := vestingtypes.NewMsgConvertIntoVestingAccount(kr.GetKey(5).AccAddr, kr.GetKey(k).AccAddr, start,
+					sdkvesting.Periods{{Length: 1000, Amount: sdk.NewCoins(sdk.NewCoin(denom, sdkmath.NewInt(10)))}}, nil, true, false, nil)
+				cctx, write := nw.GetContext().CacheContext()
+				if _, err := app.VestingKeeper.ConvertIntoVestingAccount(sdk.WrapSDKContext(cctx), msg); err == nil {
+					write()
+					tags = append(tags, "converted-into-vesting")
+				} else {
+					tags = append(tags, "conversion-refused")
 				}
 			case "mut":
 				// a valid signed Ethereum transaction whose one field is changed while the signature is kept
